@@ -371,8 +371,10 @@ impl<'a> Gen<'a> {
                         CsTy::Str => self.rng.pick(&["a", "bc", "é", "x y"]).to_string(),
                     })
                     .collect();
-                if self.rng.chance(1, 5) {
-                    segs.push(String::new());
+                // empty segments anywhere: leading, trailing, doubled separators in the middle
+                while self.rng.chance(1, 3) {
+                    let pos = self.rng.below(segs.len() + 1);
+                    segs.insert(pos, String::new());
                 }
                 if !matches!(c, CsTy::Str) && self.fault() {
                     self.tag("cs-segment");
